@@ -15,7 +15,7 @@ func init() {
 	register(&Driver{
 		ID:        "C01",
 		Technique: "exhaustive enumeration of labelled dependency graphs x registration orders x registry iteration orders (deviation-bounded DFS over permutation choice points), each a real container start; pointer-identity oracle over every holder, slice element and by-name / by-type lookup",
-		Rule:      "programs = labelled 3-node graphs over edge kinds {none, by-name iface, by-name *T, by-type+qualifier, []iface member, []*T member} x registration order x base iteration order (+ every single non-default permutation answer for the 3-kind family, + early-reference wrap plans); non-trivial = cycle or fan-in >= 2",
+		Rule:      "programs = labelled 3-node graphs over edge kinds {none, by-name iface, by-name *T, by-type+qualifier, []iface member, []*T member} x registration order x base iteration order (+ every single non-default permutation answer for the 3-kind family, + early-reference wrap plans); non-trivial = cycle or fan-in >= 2. Families added in later rounds (look-ups inside Init, retries after an abandoned attempt, user extension points at every Order, several containers, odd names / types / values) are listed per part in this file and described in MANIFEST.json (level_claimed.text) and DESIGN §7",
 		Assumptions: []string{
 			"n <= 3 user components (4 in the thorough tier, three edge kinds)",
 			"at most one (thorough: two) non-default iteration-order answers per start",
